@@ -147,7 +147,6 @@ struct IoOps {
                 if (bytes.size() != r.m.e.size() * RB::rec)
                     r.mismatch(cat, "binary_file_length", "length " + std::to_string(bytes.size()) + " for " + std::to_string(r.m.e.size()) + " edges of record size " + std::to_string(RB::rec));
                 fileEx = expectedFromBinary(bytes, (size_t)-1, A::directed);
-                r.ioFiles.push_back({bytesDigest(bytes), {(int64_t)bytes.size(), (int64_t)RB::rec}});
             } else {
                 bool wf = true;
                 auto lines = refParseText(bytes, wf);
